@@ -63,6 +63,23 @@ PROPS['C07'] = {
     'level_note': K_NOTE, 'technique': K_TECH,
 }
 
+DIAL_RULE = ('seeded scenarios: built-in fingerprint x derived-spec family (frame builders, packet-number start and length lists, tokens, CID lengths, UDP minimum, '
+             'suppressed/shuffled parameters, ClientHello sizes 1-4 datagrams) x server config (Retry, CID lengths, windows, chain) x 1-5 successive dials on one spec value x '
+             'loss/duplication/reordering/delay on the first flights; the independent wiretap removes Initial protection and reads the ClientHello; '
+             'non-trivial = a fault fired or the spec is derived; distinct = distinct abstract wire traces')
+for _p, _txt in (('C02', 'every dial of every generated spec must complete the handshake and a bidirectional echo unless the injected faults explain the failure'),
+                 ('C09', 'the union of Initial CRYPTO frames over all datagrams and retransmissions carries exactly the ClientHello at true offsets; only Initial-level frames; unlayoutable specs fail before sending'),
+                 ('C10', 'connection ID lengths, packet numbers and their encoding lengths, tokens, datagram sizes and builder bounds of the first flight equal the spec'),
+                 ('C11', 'cipher suites, extension order and bodies and the transport parameter list on the wire equal the spec (or a permutation when randomised); TransportParameterIDs() and the reference fingerprint agree with the wire')):
+    PROPS[_p] = {
+        'level': 'exploration', 'budget': {'quick': 75, 'thorough': 1500},
+        'parts': [{'sim': 'dial', 'env': {'VERIF_ORACLES': _p}}],
+        'rule': DIAL_RULE, 'real_vs_stub': 'real: UTransport + spec machinery + uTLS + in-tree server; stub: network, clock, randomness (seeded), certificates',
+        'assumptions': ['expected ClientHello extension bodies are read from the spec objects uTLS serialised for that dial'],
+        'level_text': 'seeded search over spec families, dial histories and first-flight fault schedules on whole connections: ' + _txt,
+        'level_note': W_NOTE, 'technique': W_TECH,
+    }
+
 NOT_APPLICABLE = {
     'C08': 'pure functions of a byte string / value (quantifier: inputs only): no schedule, clock, fault or interleaving for a simulator to control; deciding it is input generation (fuzzing), a different technique - DESIGN.md section 5',
     'C19': 'predicate over field lists and http.Header values (quantifier: inputs only): no schedule, clock, fault or interleaving - DESIGN.md section 5',
